@@ -10,6 +10,7 @@ ENGINES = {
     "C49": "e9_iotree",
     "C50": "e10_stream",
     "C48": "e1_cache",
+    "C46": "e2_build",
 }
 
 
